@@ -776,10 +776,10 @@ def run(ck: Check):
         tasks.append((kind, data, cpu_limit(len(data))))
         meta.append({"kind": kind, "base": name, "edits": []})
     rng = random.Random(f"C35-mut/{ck.seed}")
-    # sizes per tier (see manifest/C35.json): quick 5 000 + pathological; thorough 40 000 + pathological.
-    # Thorough estimate: ~45 000 inputs x ~0.1 s CPU (measured 0.05 s/input on the quick bases, larger shipped
-    # files in thorough) / 16 workers ~ 5 min on an idle machine, 10-15 min at load ~15; + tie ~3 min + build/leanchecker.
-    total = (5000 if ck.quick else 40000) + npatho
+    # sizes per tier (see manifest/C35.json): quick 5 000 + pathological; thorough 150 000 + pathological.
+    # Measured: thorough with 40 000 mutants = 2 min 47 s wall at load 14.6 (16 workers); 150 000 scales to about 8-10 min.
+    # (the earlier 300 000 run was slow because every mutant was held in memory at once)
+    total = (5000 if ck.quick else 150000) + npatho
     if ck.quick and big:
         total += 15000                        # escalated: a pinned function changed
     names = sorted(bases)
